@@ -55,6 +55,8 @@ type Check struct {
 	Replay func(c *Ctx, cas json.RawMessage) (violated bool, observation string)
 	// WorkerMemKB: ulimit -v for workers in KiB (0 = none).
 	WorkerMemKB int
+	// WorkerEnv: extra environment for workers (e.g. "GOMAXPROCS=1" for scheduler harnesses).
+	WorkerEnv []string
 }
 
 // Violation is one failing case.
@@ -68,20 +70,20 @@ type Violation struct {
 
 // Result is what a worker reports.
 type Result struct {
-	Evaluations int64                  `json:"evaluations"`
-	NontrivialN int64                  `json:"nontrivial_n"`   // by-construction distinct
-	NontrivialH []uint64               `json:"nontrivial_h"`   // hashed keys (deduped at merge)
-	StatesN     int64                  `json:"states_n"`       // by-construction distinct
-	StatesH     []uint64               `json:"states_h"`       // hashed state keys
-	Transitions int64                  `json:"transitions"`
-	Traces      int64                  `json:"traces"`
-	Outcomes    map[string]int64       `json:"outcomes"`
-	Samples     []json.RawMessage      `json:"samples"`
-	Violations  map[string]*Violation  `json:"violations"`
-	Caps        []string               `json:"caps"`
-	Extra       map[string]int64       `json:"extra"`
-	Notes       map[string]string      `json:"notes"`
-	HarnessErrs []string               `json:"harness_errors"`
+	Evaluations int64                 `json:"evaluations"`
+	NontrivialN int64                 `json:"nontrivial_n"` // by-construction distinct
+	NontrivialH []uint64              `json:"nontrivial_h"` // hashed keys (deduped at merge)
+	StatesN     int64                 `json:"states_n"`     // by-construction distinct
+	StatesH     []uint64              `json:"states_h"`     // hashed state keys
+	Transitions int64                 `json:"transitions"`
+	Traces      int64                 `json:"traces"`
+	Outcomes    map[string]int64      `json:"outcomes"`
+	Samples     []json.RawMessage     `json:"samples"`
+	Violations  map[string]*Violation `json:"violations"`
+	Caps        []string              `json:"caps"`
+	Extra       map[string]int64      `json:"extra"`
+	Notes       map[string]string     `json:"notes"`
+	HarnessErrs []string              `json:"harness_errors"`
 }
 
 // Ctx is handed to Run / Replay.
@@ -360,6 +362,7 @@ func loadKnown(id string) map[string]knownFinding {
 
 func parentMain(t *testing.T, chk *Check, tier string, seed int64, budget time.Duration) {
 	start := time.Now()
+	os.RemoveAll(filepath.Join(VerifDir(), "replays", chk.ID)) // replay files of earlier runs are stale
 	nw := chk.Workers
 	if nw == 0 {
 		nw = 16
@@ -396,6 +399,7 @@ func parentMain(t *testing.T, chk *Check, tier string, seed int64, budget time.D
 				cmd := exec.Command("/bin/sh", "-c", cmdline)
 				cmd.Env = append(os.Environ(), fmt.Sprintf("VERIF_WORKER=%d/%d", i, nw), "VERIF_WORKER_OUT="+out,
 					"VERIF_TIER="+tier, fmt.Sprintf("VERIF_SEED=%d", seed))
+				cmd.Env = append(cmd.Env, chk.WorkerEnv...)
 				done := make(chan error, 1)
 				go func() { done <- cmd.Run() }()
 				var err error
@@ -587,14 +591,14 @@ func parentMain(t *testing.T, chk *Check, tier string, seed int64, budget time.D
 		cov["samples"] = []any{"(no case was explored)"}
 	}
 	ev := map[string]any{
-		"property_id": chk.ID,
-		"tier":        tier,
-		"seed":        seed,
-		"level":       chk.Level,
-		"coverage":    cov,
-		"assumptions": chk.Assumptions,
-		"wall_s":      time.Since(start).Seconds(),
-		"violations":  confirmed,
+		"property_id":               chk.ID,
+		"tier":                      tier,
+		"seed":                      seed,
+		"level":                     chk.Level,
+		"coverage":                  cov,
+		"assumptions":               chk.Assumptions,
+		"wall_s":                    time.Since(start).Seconds(),
+		"violations":                confirmed,
 		"known_findings_reproduced": knownSeen,
 	}
 	if ev["assumptions"] == nil {
